@@ -428,3 +428,45 @@ def check(case):
             case.equal(len(got), len(want), 'number of listed dose events (final_time=%r): listed times %r, scheduled %r' % (
                 ft, [g[0] for g in got], [w[0] for w in want]))
             case.close(np.array(got), np.array(sorted(want)), rtol=1e-9, what='listed (time, duration, amount)')
+
+    # every sampled individual (ID) of a predictive model is listed with exactly these dose rows
+    if ft is not None and want:
+        with case.clause('sample_table'):
+            params = np.concatenate([theta, np.full(n_out, 0.3)])
+            tms = np.array(sorted({ft, 0.5 * ft}), dtype=float)
+            for n in sorted({2, max(2, min(len(want), 4))}):
+                smp = pm.sample(params.copy(), tms.copy(), n_samples=n, seed=5, include_regimen=True)
+                dose_rows = smp[smp['Dose'].notnull()]
+                ids_ = sorted(set(int(v) for v in dose_rows['ID']))
+                case.equal(ids_, list(range(1, n + 1)), 'sample IDs that carry dose rows (n_samples=%d)' % n)
+                for i in ids_:
+                    sub = dose_rows[dose_rows['ID'] == i]
+                    got_i = sorted((float(a), float(b), float(c)) for a, b, c in sub[['Time', 'Duration', 'Dose']].values)
+                    case.equal(len(got_i), len(want), 'number of dose rows of sample ID %d (n_samples=%d): times %r, '
+                               'scheduled %r' % (i, n, [g[0] for g in got_i], [w[0] for w in sorted(want)]))
+                    case.close(np.array(got_i), np.array(sorted(want)), rtol=1e-9,
+                               what='dose rows (time, duration, amount) of sample ID %d (n_samples=%d)' % (i, n))
+        # an averaged model over two different posterior predictive models: the regimen set through it reaches both
+        if s['protocol'] is None:
+            with case.clause('averaged_regimen'):
+                import xarray as xr
+                posts = []
+                for k in range(2):
+                    Mk = M.copy()
+                    pmk = chi.PredictiveModel(Mk, [chi.GaussianErrorModel() for _ in range(n_out)])
+                    nms = pmk.get_parameter_names()
+                    vals = np.concatenate([theta * (1.0 + 0.1 * k), np.full(n_out, 1e-6)])
+                    ds = xr.Dataset({nm: xr.DataArray(np.array([[v, v]]), dims=['chain', 'draw'],
+                                                      coords={'chain': [0], 'draw': [0, 1]})
+                                     for nm, v in zip(nms, vals)})
+                    posts.append(chi.PosteriorPredictiveModel(pmk, ds))
+                pam = chi.PAMPredictiveModel(posts, [1.0, 1.0])
+                r = s['reg']
+                pam.set_dosing_regimen(dose=r['dose'], start=r['start'], duration=r['duration'], period=r['period'],
+                                       num=r['num'])
+                for k, post in enumerate(pam.get_predictive_model()):
+                    dfk = post.get_dosing_regimen(final_time=ft)
+                    case.true(dfk is not None, 'candidate model %d of the averaged model reports no regimen' % (k + 1))
+                    got_k = sorted((float(a), float(b), float(c)) for a, b, c in dfk[['Time', 'Duration', 'Dose']].values)
+                    case.close(np.array(got_k), np.array(sorted(want)), rtol=1e-9,
+                               what='regimen of candidate model %d of the averaged model' % (k + 1))
